@@ -1,11 +1,11 @@
 package main
 
 import (
-	"go/constant"
-	"os"
 	"fmt"
+	"go/constant"
 	"go/token"
 	"go/types"
+	"os"
 	"sort"
 	"strings"
 
@@ -212,21 +212,21 @@ func rulesC05(p *Prog, r *Report) {
 			}
 		}
 		{
-		bad := ""
-		for _, ic := range idCalls {
-			for _, kc := range kwCalls {
-				if !(kc.Block() == ic.Block() && blockOrder(kc) < blockOrder(ic) || kc.Block() != ic.Block() && kc.Block().Dominates(ic.Block())) {
-					bad = fmt.Sprintf("%s is not tried before %s", kc.Call.StaticCallee().Name(), ic.Call.StaticCallee().Name())
+			bad := ""
+			for _, ic := range idCalls {
+				for _, kc := range kwCalls {
+					if !(kc.Block() == ic.Block() && blockOrder(kc) < blockOrder(ic) || kc.Block() != ic.Block() && kc.Block().Dominates(ic.Block())) {
+						bad = fmt.Sprintf("%s is not tried before %s", kc.Call.StaticCallee().Name(), ic.Call.StaticCallee().Name())
+					}
 				}
 			}
-		}
-		if len(idCalls) == 0 || len(kwCalls) == 0 {
-			r.Unknown("G2", "reader order", p.pos(pt.Pos()), "kind=undecided: keyword readers / id reader not recognised in parseToken")
-		} else if bad != "" {
-			r.Bad("G2", "reader order", p.pos(pt.Pos()), "ids are matched broadly; "+bad+", so a keyword or reference prefix would be swallowed by the id reader")
-		} else {
-			r.OK("G2", "reader order", p.pos(pt.Pos()), "keyword readers dominate the id reader", fmt.Sprintf("%d keyword readers, %d id readers", len(kwCalls), len(idCalls)), true)
-		}
+			if len(idCalls) == 0 || len(kwCalls) == 0 {
+				r.Unknown("G2", "reader order", p.pos(pt.Pos()), "kind=undecided: keyword readers / id reader not recognised in parseToken")
+			} else if bad != "" {
+				r.Bad("G2", "reader order", p.pos(pt.Pos()), "ids are matched broadly; "+bad+", so a keyword or reference prefix would be swallowed by the id reader")
+			} else {
+				r.OK("G2", "reader order", p.pos(pt.Pos()), "keyword readers dominate the id reader", fmt.Sprintf("%d keyword readers, %d id readers", len(kwCalls), len(idCalls)), true)
+			}
 		}
 	g2done:
 	}
